@@ -49,9 +49,13 @@ type OView struct {
 }
 
 type OSum struct {
-	Min []int `json:"min"`
-	Max []int `json:"max"`
-	Fp  []int `json:"fp"`
+	Min  []int `json:"min"` // per component over the values that are not NaN (0 when there is none)
+	Max  []int `json:"max"`
+	Nan  []int `json:"nan"`  // per component: how many values are NaN
+	EMin []int `json:"emin"` // per component over the ELEMENTS without any NaN component (0 when there is none)
+	EMax []int `json:"emax"`
+	ENan int   `json:"enan"` // elements with at least one NaN component
+	Fp   []int `json:"fp"`   // of all decoded elements (NaNs canonical)
 }
 
 type OAcc struct {
@@ -552,7 +556,7 @@ func Parse(kind string, file []byte) Out {
 		a := asObj(av)
 		oa := OAcc{View: getInt(a, "bufferView", -1), Off: getInt(a, "byteOffset", 0), Comp: getInt(a, "componentType", 0),
 			Type: getStr(a, "type"), Count: getInt(a, "count", -1), Min: []int{}, Max: []int{}, Vals: [][]int{}, MMExact: true,
-			Sum: OSum{Min: []int{}, Max: []int{}, Fp: []int{}}}
+			Sum: OSum{Min: []int{}, Max: []int{}, Nan: []int{}, EMin: []int{}, EMax: []int{}, Fp: []int{}}}
 		oa.Norm, _ = a["normalized"].(bool)
 		bound := func(v any) ([]int, bool) {
 			if v == nil {
@@ -693,13 +697,32 @@ func decodeAccessor(a *OAcc, views []OView, payloads [][]byte) {
 	}
 	raw := make([][]int, a.Count)
 	isF := a.Comp == 5126
-	fmin := make([]float64, nc)
-	fmax := make([]float64, nc)
-	imin := make([]int, nc)
-	imax := make([]int, nc)
-	seen := make([]bool, nc)
+	// order key of a component value: floats by value (never NaN here), integers as they are
+	key := func(iv int) float64 {
+		if isF {
+			return float64(math.Float32frombits(uint32(int32(iv))))
+		}
+		return float64(iv)
+	}
+	type bound struct {
+		seen     bool
+		min, max int
+	}
+	upd := func(b *bound, iv int) {
+		if !b.seen || key(iv) < key(b.min) {
+			b.min = iv
+		}
+		if !b.seen || key(iv) > key(b.max) {
+			b.max = iv
+		}
+		b.seen = true
+	}
+	all := make([]bound, nc)  // over the non-NaN values of a component
+	elem := make([]bound, nc) // over the elements without a NaN component
+	nan := make([]int, nc)
 	for i := 0; i < a.Count; i++ {
 		row := make([]int, nc)
+		rowNaN := false
 		for c := 0; c < nc; c++ {
 			p := base + i*stride + c*cs
 			var iv int
@@ -718,46 +741,40 @@ func decodeAccessor(a *OAcc, views []OView, payloads [][]byte) {
 					iv = math.MaxInt32
 				}
 			case 5126:
-				bits := binary.LittleEndian.Uint32(pl[p:])
-				iv = int(int32(bits))
-				f := float64(math.Float32frombits(bits))
-				if !math.IsNaN(f) {
-					if !seen[c] || f < fmin[c] {
-						fmin[c] = f
-					}
-					if !seen[c] || f > fmax[c] {
-						fmax[c] = f
-					}
-					seen[c] = true
-				}
-			}
-			if !isF {
-				if !seen[c] || iv < imin[c] {
-					imin[c] = iv
-				}
-				if !seen[c] || iv > imax[c] {
-					imax[c] = iv
-				}
-				seen[c] = true
+				iv = int(int32(binary.LittleEndian.Uint32(pl[p:])))
 			}
 			row[c] = iv
+			if isF && NaN32(iv) {
+				nan[c]++
+				rowNaN = true
+			} else {
+				upd(&all[c], iv)
+			}
+		}
+		if rowNaN {
+			a.Sum.ENan++
+		} else {
+			for c := 0; c < nc; c++ {
+				upd(&elem[c], row[c])
+			}
 		}
 		raw[i] = row
 	}
 	a.Dec = true
 	a.raw = raw
 	for c := 0; c < nc; c++ {
-		if isF {
-			a.Sum.Min = append(a.Sum.Min, F32(fmin[c]))
-			a.Sum.Max = append(a.Sum.Max, F32(fmax[c]))
-		} else {
-			a.Sum.Min = append(a.Sum.Min, imin[c])
-			a.Sum.Max = append(a.Sum.Max, imax[c])
-		}
+		a.Sum.Min = append(a.Sum.Min, all[c].min)
+		a.Sum.Max = append(a.Sum.Max, all[c].max)
+		a.Sum.Nan = append(a.Sum.Nan, nan[c])
+		a.Sum.EMin = append(a.Sum.EMin, elem[c].min)
+		a.Sum.EMax = append(a.Sum.EMax, elem[c].max)
 	}
 	a.Sum.Fp = fingerprint(func(emit func(int)) {
 		for _, r := range raw {
 			for _, v := range r {
+				if isF {
+					v = CanonNaN(v)
+				}
 				emit(v)
 			}
 		}
@@ -789,10 +806,14 @@ func cornerPrints(p *OPrim, accs []OAcc) {
 			continue
 		}
 		vals := accs[at.Acc].raw
+		isF := accs[at.Acc].Comp == 5126
 		at.Cfp = fingerprint(func(emit func(int)) {
 			row := func(i int) {
 				if i >= 0 && i < len(vals) {
 					for _, v := range vals[i] {
+						if isF {
+							v = CanonNaN(v)
+						}
 						emit(v)
 					}
 				} else {
